@@ -69,4 +69,41 @@ theorem zeroPad_spec (k n : Nat) (hk : 0 < k) (hn : n < 10 ^ k) :
     rw [foldl_zeros]
     exact decNat_value n
 
+/-! ### the texts of the field kinds, told without the model's functions -/
+
+/-- `ds` is THE decimal numeral of `n`: ASCII digits, the value `n`, and at most `k` digits exactly when
+    `n < 10^k` (hence no leading zero; `0` is written "0") -/
+def IsDecimal (ds : Text) (n : Nat) : Prop :=
+  (∀ c ∈ ds, 48 ≤ c ∧ c ≤ 57) ∧ digitsValue ds = n ∧ ∀ k, 0 < k → (ds.length ≤ k ↔ n < 10 ^ k)
+
+/-- `t` is the decimal numeral of the integer `i`: a '-' in front iff `i` is negative, then the numeral of `|i|` -/
+def IsSignedDecimal (t : Text) (i : Int) : Prop :=
+  ∃ ds, IsDecimal ds i.natAbs ∧ t = if i < 0 then 45 :: ds else ds
+
+/-- `t` consists of exactly `k` ASCII digits and denotes `n` (leading zeros as needed) -/
+def IsFixedDigits (t : Text) (k n : Nat) : Prop :=
+  t.length = k ∧ (∀ c ∈ t, 48 ≤ c ∧ c ≤ 57) ∧ digitsValue t = n
+
+/-- the names of the log levels by their integer value (`log_defs.hpp`); index 0 and everything from 7 on:
+    "undefined" -/
+def levelNames : List Text :=
+  [bytes "undefined", bytes "Fatal Error", bytes "Error", bytes "Warning", bytes "Info", bytes "Debug",
+   bytes "Full Debug"]
+
+/-- the names of the log classes by their integer value -/
+def classNames : List Text :=
+  [bytes "undefined", bytes "SysCall", bytes "Data", bytes "Communication", bytes "Application",
+   bytes "Accounting", bytes "Operator Action"]
+
+theorem decInt_signed (i : Int) : IsSignedDecimal (decInt i) i :=
+  ⟨decNat i.natAbs, ⟨decNat_digits _, decNat_value _, fun k hk => decNat_length _ k hk⟩, decInt_eq i⟩
+
+theorem levelText_table : ∀ n, levelText n = (levelNames[n]?).getD (bytes "undefined")
+  | 0 | 1 | 2 | 3 | 4 | 5 | 6 => rfl
+  | _ + 7 => rfl
+
+theorem classText_table : ∀ n, classText n = (classNames[n]?).getD (bytes "undefined")
+  | 0 | 1 | 2 | 3 | 4 | 5 | 6 => rfl
+  | _ + 7 => rfl
+
 end CelmaVerif.LogFormat
